@@ -1329,8 +1329,9 @@ class SegmentationImage:
         polygons = list(shapes(self.data.astype('int32'), connectivity=8))
         polygons.sort(key=lambda x: x[1])  # sort in label order
 
-        # do not include polygons for background (label = 0)
-        return polygons[1:]
+        # do not include polygons for background (label = 0); note that
+        # there may be zero, one, or several background regions
+        return [polygon for polygon in polygons if polygon[1] != 0]
 
     @lazyproperty
     def polygons(self):
